@@ -29,9 +29,10 @@ type c10Case struct {
 	Writers  int    `json:"writers"`
 	WOps     int    `json:"wops"` // writes per writer
 	Readers  int    `json:"readers"`
-	Stall    bool   `json:"stall"`     // hold maintenance inside a gated removal listener so that the write queue fills up and writers park on it
-	CloseAt  int    `json:"close_at"`  // Close is called once this many writes have been issued (0 = right away)
-	PostWait bool   `json:"post_wait"` // call Wait after Close (plain/loading)
+	Waiters  int    `json:"waiters,omitempty"` // goroutines calling Wait in a loop while the writers run (plain/loading)
+	Stall    bool   `json:"stall"`             // hold maintenance inside a gated removal listener so that the write queue fills up and writers park on it
+	CloseAt  int    `json:"close_at"`          // Close is called once this many writes have been issued (0 = right away)
+	PostWait bool   `json:"post_wait"`         // call Wait after Close (plain/loading)
 }
 
 func genC10(t *rapid.T) c10Case {
@@ -39,6 +40,7 @@ func genC10(t *rapid.T) c10Case {
 		Kind:    rapid.SampledFrom([]string{"plain", "plain", "loading", "hybrid", "hybridloading"}).Draw(t, "kind"),
 		MaxSize: rapid.SampledFrom([]int{2, 16, 1000}).Draw(t, "maxsize"),
 		Readers: rapid.IntRange(0, 8).Draw(t, "readers"),
+		Waiters: rapid.SampledFrom([]int{0, 0, 1, 2, 4}).Draw(t, "waiters"),
 	}
 	switch rapid.IntRange(0, 4).Draw(t, "load") {
 	case 0: // few writers
@@ -168,6 +170,17 @@ func execC10(c c10Case, x *verifkit.Ctx) (fail *verifkit.Failure) {
 			}
 		}()
 	}
+	if cl.wait != nil {
+		for w := 0; w < c.Waiters; w++ {
+			wg.Add(1)
+			go func() {
+				defer wg.Done()
+				for i := 0; i < 20; i++ {
+					cl.wait()
+				}
+			}()
+		}
+	}
 	if c.CloseAt == 0 {
 		closeOnce.Do(func() { close(closeNow) })
 	}
@@ -277,11 +290,13 @@ func TestVerifC10(t *testing.T) {
 		// always run first: more writes in flight than the queue holds while maintenance is stalled at Close
 		Fixed: []c10Case{
 			{Kind: "plain", MaxSize: 16, Writers: 2500, WOps: 1, Readers: 2, Stall: true, CloseAt: 2500, PostWait: true},
+			{Kind: "plain", MaxSize: 16, Writers: 64, WOps: 200, Readers: 2, Waiters: 4, Stall: false, CloseAt: 12800},
+			{Kind: "loading", MaxSize: 2, Writers: 1500, WOps: 2, Readers: 0, Waiters: 3, Stall: true, CloseAt: 3000},
 			{Kind: "loading", MaxSize: 2, Writers: 2000, WOps: 1, Readers: 0, Stall: true, CloseAt: 1500},
 			{Kind: "hybrid", MaxSize: 16, Writers: 2200, WOps: 1, Readers: 1, Stall: true, CloseAt: 2200},
 			{Kind: "hybridloading", MaxSize: 1000, Writers: 40, WOps: 100, Readers: 4, Stall: false, CloseAt: 1000},
 		},
-		Rule: "C10: rapid draws the cache kind (plain, loading, hybrid, hybrid loading - built through the public builders), MaxSize, 1..2500 writer goroutines (classes below and above the write queue's capacity), 0..8 readers, whether maintenance is held inside a gated removal listener when Close lands (so that the queue is full and writers are parked on it), the moment of Close, and the calls made after Close (Set, Delete, Get, loading Get, second Close, Wait); non-trivial = more writes in flight than the queue holds at Close, or a hybrid cache, or Wait after Close",
+		Rule: "C10: rapid draws the cache kind (plain, loading, hybrid, hybrid loading - built through the public builders), MaxSize, 1..2500 writer goroutines (classes below and above the write queue's capacity), 0..8 readers, 0..4 goroutines calling Wait in a loop meanwhile, whether maintenance is held inside a gated removal listener when Close lands (so that the queue is full and writers are parked on it), the moment of Close, and the calls made after Close (Set, Delete, Get, loading Get, second Close, Wait); non-trivial = more writes in flight than the queue holds at Close, or a hybrid cache, or Wait after Close",
 		Assumptions: []string{
 			"a call that has not returned 5 s after Close returned, while it is parked in a channel send and no background goroutine of that cache exists any more, is reported as blocked for ever (stack classification); real scheduler, failures are not re-executed",
 			"background goroutines are recognised by the frames Store.maintenance / Store.processSecondary in the goroutine profile, counted relative to the start of the case",
